@@ -9,6 +9,7 @@
 #include "memfile.h"
 #include "objlib.h"
 #include "spec_types.h"
+#include "watchdog.h"
 
 using namespace Vector::BLF;
 using ol::Obj;
@@ -191,6 +192,7 @@ static int run_c03(uint64_t seed, int from, int to, int per_class) {
     ol::spec_selfcheck();
     for (int c = from; c < to && c < vr::nclasses; c++) {
         hc::begin_case(std::to_string(c));
+        wd::arm(600, "c03-class");
         const vr::ClassInfo * ci = &vr::classes[c];
         C03Stats st; std::string sample;
         Rng r(Rng::mix(seed, c));
@@ -321,6 +323,7 @@ static int run_c02(uint64_t seed, int from, int to, const char * path, int extra
     static const uint8_t bvals[] = {0x00, 0x01, 0x7f, 0x80, 0xff};
     for (int c = from; c < to && c < (int)imgs.size(); c++) {
         hc::begin_case(std::to_string(c));
+        wd::arm(900, "c02-image");
         const Image & im = imgs[c];
         long mutated = 0, preserved = 0, undecodable = 0, not_field = 0;
         Decoded d0;
@@ -402,6 +405,7 @@ static std::string tname(const ObjectHeaderBase * o) {
 static int run_c17(uint64_t seed) {
     ol::spec_selfcheck();
     hc::begin_case("0");
+    wd::arm(300, "c17");
     long codes = 0, mapped = 0, nothing = 0;
     Rng r(seed);
     std::vector<uint32_t> all;
@@ -489,6 +493,7 @@ static int run_c17(uint64_t seed) {
 int main(int argc, char ** argv) {
     hc::out_init();
     if (argc < 5) { fprintf(stderr, "usage: h_codec mode seed from to [n]\n"); return 2; }
+    wd::start();
     std::string mode = argv[1];
     uint64_t seed = strtoull(argv[2], nullptr, 0);
     int from = atoi(argv[3]), to = atoi(argv[4]);
